@@ -74,12 +74,19 @@ def m_open_workbook(ex, st, fn, args, kw):
     kind = fresh(INT, "open_outcome")[0]
     if True:
         sb = st.copy(); sb.ghost["fault"] = True; yield sb, Raise(ex.new_builtin_exc(sb, "XLRDError", ["not an Excel file"]))
-        sc = st.copy(); yield sc, Raise(ex.new_builtin_exc(sc, "OSError", ["cannot open"]))
+        sc = st.copy(); sc.ghost["fault"] = True; yield sc, Raise(ex.new_builtin_exc(sc, "OSError", ["seek to an impossible position in a damaged archive"]))
         sd = st.copy(); sd.ghost["fault"] = True; yield sd, Raise(ex.new_builtin_exc(sd, "UnicodeDecodeError", ["bad bytes"]))
         for other in ("BadZipFile", "EOFError", "KeyError", "ParseError"):      # what the libraries under xlrd raise for damaged archives (found by fault injection)
             se = st.copy(); se.ghost["fault"] = True; yield se, Raise(ex.new_builtin_exc(se, other, ["damaged"]))
     book = Ref("Book"); st.heap[book.oid] = {"nsheets": st.ghost["nsheets"], "datemode": fresh(INT, "datemode")[0]}
     st.ghost["book"] = book; yield st, book
+
+
+def m_open(ex, st, fn, args, kw):
+    """the probe open(source_path, 'rb'): fails with OSError iff the file cannot be opened"""
+    ex.obligations.append(Obligation("the-file-probed-is-the-source-path-opened-for-reading", st.pc, z3.BoolVal(args[0] is st.frames[-1].env.get("source_path") and (len(args) < 2 or args[1] in ("rb", "r"))), "post", props=["C18", "C10"]))
+    sb = st.copy(); sb.ghost["cannot_open"] = True; yield sb, Raise(ex.new_builtin_exc(sb, "OSError", ["cannot open"]))
+    f = Ref("File"); st.heap[f.oid] = {}; st.ghost["probed"] = True; yield st, f
 
 
 def m_sheet_by_index(ex, st, recv, args, kw):
@@ -103,7 +110,7 @@ def excel_rows_contract():
         ns = fresh(INT, "nsheets")[0]; nr = fresh(INT, "nrows")[0]; nc = fresh(INT, "ncols")[0]; st.pc.extend([ns.z >= 1, nr.z >= 0, nc.z >= 0])
         path = fresh(STR, "path")[0]; st.pc.append(z3.Length(path.z) > 0)
         st.frames[-1].env.update({"source_path": path, "sheet": sheet})
-        st.ghost.update({"sheet0": sheet, "nsheets": ns, "nrows": nr, "ncols": nc, "fault": False, "rows_yielded": 0, "sheet_read": None, "book": None})
+        st.ghost.update({"sheet0": sheet, "nsheets": ns, "nrows": nr, "ncols": nc, "fault": False, "cannot_open": False, "rows_yielded": 0, "sheet_read": None, "book": None})
         def on_yield(s, v):
             y = lift(s.frames[-1].env["_i0"]).z; k = G(s, "sheet0") - 1; j = z3.Int("j!xr")
             goal = z3.BoolVal(False)
@@ -120,7 +127,7 @@ def excel_rows_contract():
         returns=[Clause("rows_yielded == nrows", "every-row-of-the-sheet-is-returned", props=["C16"]),
                  Clause(lambda ex, st: Sym(BOOL, lift(st.ghost["sheet_read"]).z == G(st, "sheet0") - 1) if st.ghost["sheet_read"] is not None else Sym(BOOL, z3.BoolVal(False)), "the-sheet-read-is-the-one-requested", props=["C16"])],
         raises={"DataFormatError": [Clause(lambda ex, st: Sym(BOOL, z3.Or(z3.BoolVal(bool(st.ghost["fault"])), G(st, "sheet0") > G(st, "nsheets"))), "data-format-error-only-for-a-broken-workbook-or-a-missing-sheet", props=["C16", "C06", "C10"])],
-                "OSError": []},
+                "OSError": [Clause(lambda ex, st: Sym(BOOL, z3.BoolVal(bool(st.ghost.get("cannot_open")))), "an-OSError-escapes-only-if-the-file-cannot-be-opened-(damage-inside-a-readable-file-is-a-data-format-error)", props=["C10", "C18", "C06"])]},
         loops={0: LoopSpec(invariants=["rows_yielded == _i0"], havoc={"y": INT, "row": UFList(STR), "x": INT, "location._line": INT, "location._cell": INT, "location._column": INT}, ghost_havoc={"rows_yielded": INT}),
                1: LoopSpec(invariants=["row_upto(row, _i1)"], havoc={"x": INT, "row": UFList(STR), "location._cell": INT})},
         expect=["return", "DataFormatError"], n_loops=2, raises_only_props=["C16", "C06", "C10"])
@@ -132,7 +139,7 @@ def unit_excel_rows():
     def make(ctx):
         c = excel_rows_contract()
         return {"contract": c, "spec_functions": c._sf,
-                "callees": {"builtin:xlrd.open_workbook": m_open_workbook, "ref:Book.sheet_by_index": m_sheet_by_index, "ref:Sheet.cell": m_sheet_cell, "rowio._excel_cell_value": ModelContract(m_cell_value)},
+                "callees": {"builtin:xlrd.open_workbook": m_open_workbook, "builtin:open": m_open, "ref:Book.sheet_by_index": m_sheet_by_index, "ref:Sheet.cell": m_sheet_cell, "rowio._excel_cell_value": ModelContract(m_cell_value)},
                 "assumptions": ["A-XLRD: open_workbook raises only XLRDError / UnicodeError / OSError (audited by fault injection; see known findings for what the audit disproves); sheet_by_index(k) is the k-th sheet; nrows / ncols / cell(y, x)",
                                 "_excel_cell_value is used through its contract (cell_text)"]}
     return ProofUnit("rowio.excel_rows", "excel_rows: requested sheet, every row, one rendered cell per column; missing sheet / broken workbook -> DataFormatError", ["C16", "C06", "C10", "C04"], make, None)
